@@ -627,7 +627,11 @@ impl MysqlShim<Transport> for PShim {
             None => (json!([]), false),
         };
         let ncerts = ctx.tls_client_certs.map(|c| c.len() as i64).unwrap_or(-1);
-        sh.emit(json!({"e": "cb", "name": "auth", "user": user, "has_user": has_user, "ncerts": ncerts}));
+        let certs: Vec<J> = ctx
+            .tls_client_certs
+            .map(|c| c.iter().map(|d| fingerprint(d.as_ref())).collect())
+            .unwrap_or_default();
+        sh.emit(json!({"e": "cb", "name": "auth", "user": user, "has_user": has_user, "ncerts": ncerts, "certs": certs}));
         let reject = sh.sc["shim"]["auth"].as_str() == Some("reject");
         let ret = if reject {
             Err(SErr::Shim(sh.sc["shim"]["auth_token"].as_u64().unwrap_or(4242)))
@@ -677,6 +681,37 @@ struct TlsMaterial {
     server_key: Vec<u8>,
     client_cert: Vec<u8>,
     client_key: Vec<u8>,
+    // a client certificate chain: leaf signed by an intermediate CA signed by a root CA
+    chain_root: Vec<u8>,
+    chain_inter: Vec<u8>,
+    chain_leaf: Vec<u8>,
+    chain_leaf_key: Vec<u8>,
+}
+
+fn ca_params(cn: &str) -> rcgen::CertificateParams {
+    let mut p = rcgen::CertificateParams::new(Vec::<String>::new());
+    p.is_ca = rcgen::IsCa::Ca(rcgen::BasicConstraints::Unconstrained);
+    p.distinguished_name = rcgen::DistinguishedName::new();
+    p.distinguished_name.push(rcgen::DnType::CommonName, cn);
+    p
+}
+
+/// the certificates the scripted client presents (DER), leaf first; empty when it presents none
+pub fn client_chain(sc: &J) -> Vec<Vec<u8>> {
+    if !sc["client"]["cert"].as_bool().unwrap_or(false) {
+        return Vec::new();
+    }
+    let m = tls_material();
+    match sc["client"]["cert_chain"].as_u64().unwrap_or(0) {
+        0 | 1 => vec![m.client_cert.clone()],
+        2 => vec![m.chain_leaf.clone(), m.chain_inter.clone()],
+        _ => vec![m.chain_leaf.clone(), m.chain_inter.clone(), m.chain_root.clone()],
+    }
+}
+
+pub fn fingerprint(der: &[u8]) -> J {
+    let sum: u64 = der.iter().enumerate().map(|(i, b)| (*b as u64) * ((i % 251) as u64 + 1)).sum();
+    json!([der.len(), sum % 1000003])
 }
 
 thread_local! {
@@ -689,11 +724,21 @@ fn tls_material() -> Rc<TlsMaterial> {
         if m.is_none() {
             let s = rcgen::generate_simple_self_signed(vec!["localhost".to_string()]).unwrap();
             let c = rcgen::generate_simple_self_signed(vec!["client".to_string()]).unwrap();
+            let root = rcgen::Certificate::from_params(ca_params("verif root")).unwrap();
+            let inter = rcgen::Certificate::from_params(ca_params("verif intermediate")).unwrap();
+            let mut lp = rcgen::CertificateParams::new(vec!["client".to_string()]);
+            lp.distinguished_name = rcgen::DistinguishedName::new();
+            lp.distinguished_name.push(rcgen::DnType::CommonName, "verif leaf");
+            let leaf = rcgen::Certificate::from_params(lp).unwrap();
             *m = Some(Rc::new(TlsMaterial {
                 server_cert: s.serialize_der().unwrap(),
                 server_key: s.serialize_private_key_der(),
                 client_cert: c.serialize_der().unwrap(),
                 client_key: c.serialize_private_key_der(),
+                chain_root: root.serialize_der().unwrap(),
+                chain_inter: inter.serialize_der_with_signer(&root).unwrap(),
+                chain_leaf: leaf.serialize_der_with_signer(&inter).unwrap(),
+                chain_leaf_key: leaf.serialize_private_key_der(),
             }));
         }
         m.as_ref().unwrap().clone()
@@ -709,6 +754,9 @@ fn make_server_config(sc: &J) -> Arc<rustls::ServerConfig> {
         let mut roots = rustls::RootCertStore::empty();
         roots
             .add(CertificateDer::from(m.client_cert.clone()))
+            .unwrap();
+        roots
+            .add(CertificateDer::from(m.chain_root.clone()))
             .unwrap();
         let verifier = rustls::server::WebPkiClientVerifier::builder(Arc::new(roots))
             .allow_unauthenticated()
@@ -736,10 +784,16 @@ pub fn make_tls_client(sc: &J) -> TlsClient {
         .unwrap();
     let builder = rustls::ClientConfig::builder().with_root_certificates(roots);
     let cfg = if sc["client"]["cert"].as_bool().unwrap_or(false) {
+        let chain = client_chain(sc);
+        let key = if chain.len() > 1 {
+            m.chain_leaf_key.clone()
+        } else {
+            m.client_key.clone()
+        };
         builder
             .with_client_auth_cert(
-                vec![CertificateDer::from(m.client_cert.clone())],
-                PrivateKeyDer::Pkcs8(PrivatePkcs8KeyDer::from(m.client_key.clone())),
+                chain.into_iter().map(CertificateDer::from).collect(),
+                PrivateKeyDer::Pkcs8(PrivatePkcs8KeyDer::from(key)),
             )
             .unwrap()
     } else {
